@@ -709,6 +709,9 @@ func checkC05(c *Ctx) {
 	// (d) the exemption for diagnostics in (c) is sound only if diagnostic text cannot come back into a file or a decision
 	checkFileAPIs(c, "C05.d", f)
 	checkDiagnosticSink(c, f)
+	// the allow-list trusts the standard library and go-cmp as built: no go.mod replaces an external module
+	r.Rule("C05.e", "the allow-listed external modules are the ones actually built: no go.mod replaces an external module; go-cmp at the reviewed version", 12)
+	checkModuleGraph(c, "C05.e")
 }
 
 // console printers: the only consumers allowed for a value derived from recover()
